@@ -32,20 +32,20 @@ func injectFailures(r *rng.R, s *spec.Spec, e *Env, timeoutPct int) map[string]s
 		case 5:
 			// exits 0 but removes the marker its own output check asserts (the check passed
 			// when the build started)
-			m := "markers/okb_" + t.Name
+			m := "markers/okb_" + t.MID()
 			t.Checks = append(t.Checks, spec.Check{Marker: m, Shape: rng.Pick(r, []string{"", "and"})})
-			t.Untouch, t.UntouchIf = m, "markers/break_"+t.Name
+			t.Untouch, t.UntouchIf = m, "markers/break_"+t.MID()
 			kinds[t.Label()] = "failing-output-check(broken-by-the-command)"
 			addPassingChecks(r, t)
 		case 0:
-			t.FailIf = "markers/fail_" + t.Name
+			t.FailIf = "markers/fail_" + t.MID()
 			kinds[t.Label()] = "exit-nonzero"
 		case 1:
 			if len(t.AllOuts()) == 0 {
-				t.FailIf = "markers/fail_" + t.Name
+				t.FailIf = "markers/fail_" + t.MID()
 				kinds[t.Label()] = "exit-nonzero"
 			} else {
-				t.OmitIf = "markers/omit_" + t.Name
+				t.OmitIf = "markers/omit_" + t.MID()
 				if outs := t.AllOuts(); len(outs) >= 2 && r.Chance(1, 2) {
 					// only one of the declared outputs goes missing
 					t.Omit = outs[r.Intn(len(outs))].Path
@@ -53,11 +53,11 @@ func injectFailures(r *rng.R, s *spec.Spec, e *Env, timeoutPct int) map[string]s
 				kinds[t.Label()] = "missing-declared-output"
 			}
 		case 2:
-			t.Checks = append(t.Checks, spec.Check{Marker: "markers/ok_" + t.Name, Shape: rng.Pick(r, []string{"", "", "and", "nosete"})})
+			t.Checks = append(t.Checks, spec.Check{Marker: "markers/ok_" + t.MID(), Shape: rng.Pick(r, []string{"", "", "and", "nosete"})})
 			kinds[t.Label()] = "failing-output-check"
 			addPassingChecks(r, t)
 		case 3:
-			t.SleepIf = "markers/slow_" + t.Name
+			t.SleepIf = "markers/slow_" + t.MID()
 			t.Timeout = "3s"
 			kinds[t.Label()] = "timeout"
 			switch r.Intn(4) {
@@ -69,7 +69,7 @@ func injectFailures(r *rng.R, s *spec.Spec, e *Env, timeoutPct int) map[string]s
 				kinds[t.Label()] = "timeout(shell-ignores-TERM)"
 			}
 		default:
-			t.FailIf = "markers/fail_" + t.Name
+			t.FailIf = "markers/fail_" + t.MID()
 			kinds[t.Label()] = "exit-nonzero"
 		}
 	}
@@ -86,7 +86,7 @@ func injectFailures(r *rng.R, s *spec.Spec, e *Env, timeoutPct int) map[string]s
 // both): every check counts, not the first or the last one.
 func addPassingChecks(r *rng.R, t *spec.Target) {
 	mk := func(j int) spec.Check {
-		c := spec.Check{Marker: fmt.Sprintf("markers/pass%d_%s", j, t.Name), Shape: rng.Pick(r, []string{"", "and"})}
+		c := spec.Check{Marker: fmt.Sprintf("markers/pass%d_%s", j, t.MID()), Shape: rng.Pick(r, []string{"", "and"})}
 		if r.Chance(1, 3) {
 			c.Expected = "ok"
 		}
